@@ -107,6 +107,8 @@ def run(ctx):
                             ElementDefinition(Class=cls, symbol=sym, name=name, description="verification harness element", equation=eq,
                                               parameters=[ParameterDefinition(symbol="R", unit="ohm", description="", value=val, lower_limit=0.0, upper_limit=inf, fixed=False)]),
                             private=private, validate_impedances=validate)
+                        if kind == "badsym":
+                            ctx.add_failing("invalid-symbol-accepted", hist[-6:], observed=f"symbol {sym!r} registered", expected="refused (ValueError)", clause="a definition with an invalid symbol is refused; the parser recognises exactly the currently registered symbols")
                         if kind == "inconsistent" and validate:
                             ctx.add_failing("inconsistent-definition-accepted", hist[-6:], observed="registered", expected="refused", clause="an element whose numeric impedance contradicts its declared equation at its default parameter values is refused at registration")
                     elif r < 0.62:
